@@ -531,7 +531,12 @@ class ClientWorldObjectManager:
                 cached_obj = normalize_object_update_compressed_data(cached_obj_data)
                 cached_obj["UpdateFlags"] = update_flags
                 cached_obj["RegionHandle"] = handle
-                self._track_new_object(region_state, Object(**cached_obj), msg)
+                existing_obj = self.lookup_fullid(cached_obj["FullID"])
+                if existing_obj is not None:
+                    # Same object under a new LocalID / CRC, must not be tracked a second time
+                    self._update_existing_object(existing_obj, cached_obj, ObjectUpdateType.UPDATE, msg)
+                else:
+                    self._track_new_object(region_state, Object(**cached_obj), msg)
                 continue
 
             # Don't know about it and wasn't cached.
